@@ -333,7 +333,7 @@ def r48(ctx, sn):
     # moved piece / squares
     SRC = call('chess_move::ChessMove::get_source', MV, gargs=())
     DST = call('chess_move::ChessMove::get_dest', MV, gargs=())
-    M = call('core::option::Option::<T>::unwrap', call('board::Board::piece_on', ('param', 1), SRC, gargs=()), gargs=('piece::Piece',))
+    M = call('core::option::Option::<T>::unwrap', call('board::Board::piece_on', ('param', 1), SRC, gargs=()), gargs=())
     ev = events(ctx, sn)
     if not ev:
         ctx.inconclusive('C02.R8', 'no toggle events found in make_move_new')
